@@ -32,6 +32,8 @@ def run(repo, rep):
     _memo_rule(repo, rep, 'C17', 'C17.Z1')
     from ..pitfalls import log_rule as _log_rule
     _log_rule(repo, rep, 'C17', 'C17.Z2')
+    from ..api_pitfalls import truth_rule as _truth_rule
+    _truth_rule(repo, rep, 'C17', 'C17.Z4')
     from ..pitfalls import zero_rule as _zero_rule
     _zero_rule(repo, rep, 'C17', 'C17.Z3')
     sc = repo.module('sopclass')
